@@ -2,9 +2,10 @@
 From Verif Require Import Base.Prelude Store.Spec Codec.Model Codec.Proofs Codec.Refuted Generated.Facts.
 Open Scope N_scope.
 
-(* tie (a): Load reads through io.ReadFull only, accepts the zero bytes of an empty index, resets the state *)
+(* tie (a): Load reads through io.ReadFull only, accepts the zero bytes of an empty index, resets the state; a partition's
+   snapshot / restore are exactly index.Save / index.Load without header, with nothing before or around them *)
 Lemma C08_facts_ok :
-  load_single_reads = Known 0%nat /\ load_accepts_empty = Known true /\ load_resets_state = Known true.
+  load_single_reads = Known 0%nat /\ load_accepts_empty = Known true /\ load_resets_state = Known true /\ snapshot_is_index_save = Known true.
 Proof. repeat split; reflexivity. Qed.
 
 (* Round trip: for every snapshot value within the field widths of the format (wf_snap: <= 65535 metadata pairs,
